@@ -286,6 +286,73 @@ def check_rule(ploidy, info, rvs, hp, pc, ps):
     return None
 
 
+def decide_read(ploidy, info, rvs):
+    """(HP, PC, PS) the property demands for a read judged on its own with the alleles rvs (sorted by position), or
+    (None, None, None): the phase set with the largest best score (the first touched one among equals), its strictly best
+    haplotype, PC = margin; a tie or no phased heterozygous variant leaves the read untagged.  Plain Python, no model"""
+    sc = agree_scores(ploidy, info, sorted(rvs))
+    pick = None
+    for ps, s in sc.items():
+        if pick is None or max(s) > max(sc[pick]):
+            pick = ps
+    if pick is None:
+        return (None, None, None)
+    s = sc[pick]
+    m = max(s)
+    h = s.index(m)
+    second = max(x for i, x in enumerate(s) if i != h)
+    if second == m:
+        return (None, None, None)
+    return (h + 1, m - second, pick)
+
+
+def boundary_reads_check(ctx, case, slim, chrom, regs, used, inrecs, exp_idx, idx_exp, cur, truth_of, swap, coll_names, coll_bx):
+    """Alignments whose first / last aligned base is exactly a phased heterozygous SNV (generator stream `add_boundary_reads`):
+    the read covers that SNV fully, so its allele counts like any other.  For the boundary reads that are a read of their own
+    (one record of that name) the expected tag is computed here from the generator's truth alone — neither the reader's
+    output nor the Lean model is consulted — and compared with what haplotag wrote.  (Mates / supplementary records on a
+    boundary are judged by the ground-truth correspondence through the Lean model of create_read_from_group.)"""
+    o = case["opts"]
+    per_name = {}
+    for r in inrecs:
+        if r["chrom"] is not None:
+            per_name[r["name"]] = per_name.get(r["name"], 0) + 1
+    for k in idx_exp:
+        t = truth_of[exp_idx[k]]
+        b = t.get("bnd")
+        if not b:
+            continue
+        rec = cur[k]
+        if swap is None:
+            ctx.dist("boundary_side_kind", f"{b['side']}/{b['kind']}"); ctx.dist("boundary_clip", b["clip"]); ctx.dist("boundary_role", b["role"])
+            ctx.dist("boundary_variant_type", "SNV" if b.get("snv", True) else "indel anchor on the first aligned base")
+        if per_name.get(rec["name"], 0) != 1 or rec["name"] in coll_names or (rec["bx"] is not None and rec["bx"] in coll_bx):
+            continue
+        owners = [s for s in used if o.get("ignore_read_groups") or rec["rg"] in rg_ids(case, s)]
+        if len(owners) > 1:
+            continue
+        exp, without, rvs = (None, None, None), (None, None, None), []
+        if owners and usable(rec):
+            s = owners[0]
+            idxs = set(sample_variants(case, s, chrom, regs))
+            info = phase_info(case, s, chrom, sorted(idxs), swap)
+            q = 30 if not o.get("no_reference") else t["qual"]
+            rvs = [[case["variants"][chrom][i]["pos"], a, q] for i, a in t["truth"] if i in idxs]
+            exp = decide_read(case["ploidy"], info, rvs)
+            without = decide_read(case["ploidy"], info, [v for v in rvs if v[0] not in b["pos"]])
+        if swap is None:
+            eff = ("read not used" if not (owners and usable(rec)) else "boundary variant not in the table" if not any(v[0] in b["pos"] for v in rvs)
+                   else "none" if exp == without else "untagged without it" if without[0] is None else "tie with it" if exp[0] is None
+                   else "other HP or PS" if (exp[0], exp[2]) != (without[0], without[2]) else "PC only")
+            ctx.dist("boundary_variant_effect", eff)
+        if tuple(rec["tagvals"]) != exp:
+            end = rec["end"] - 1
+            where = " and ".join(f"{w} aligned base {p + 1}" for w, p in (("first", rec["start"]), ("last", end)) if p in b["pos"])
+            ctx.fail(f"{'exchanged VCF, ' if swap else ''}{chrom} {rec['name']} (CIGAR {rec['core'].get('cigar')}, flag {rec['flag']}, {'--no-reference' if o.get('no_reference') else '--reference'}): "
+                     f"its {where} is exactly a phased heterozygous {'SNV' if b.get('snv', True) else 'variant (first base = anchor of an indel)'}; the read carries alleles {sorted(rvs)} (position, allele, quality), "
+                     f"the best-agreeing haplotype gives HP/PC/PS {list(exp)} (without the boundary variant: {list(without)}), haplotag wrote {list(rec['tagvals'])}",
+                     slim, key="boundary-variant")
+
 
 # ------------------------------------------------------------------------------------------------
 # the whole run against the Lean model of run_haplotag (Model/C10Run.lean)
@@ -776,6 +843,8 @@ def run_case(ctx, case, d):
                                     break
                         ctx.fail(f"{'exchanged VCF, ' if swapped else ''}{chrom} {rec['name']} tagged HP={hp} PC={pc} PS={ps} but ({mode} alleles) {msg}",
                                  slim, key=key)
+            # ---- boundary reads against the generator's truth (Python only)
+            boundary_reads_check(ctx, case, slim, chrom, regs, used, inrecs, exp_idx, idx_exp, cur, truth_of, swap, coll_names, coll_bx)
             # ---- correspondence with the Lean model
             for mode, a in zip(MODES[:2], ans):
                 if "error" in a and a.get("tags") is None:
